@@ -237,6 +237,10 @@ def c_x11(w):
     return w.vchan.request_x11(auth_cookie="00" * 16, handler=lambda *a: None)
 
 
+def c_file_read(w):
+    return w.vchan.makefile("rb").read(10)
+
+
 def c_exit_status(w):
     return w.vchan.recv_exit_status()
 
@@ -301,6 +305,7 @@ def c_open_sftp(w):
 CALLS = {
     "recv": dict(fn=c_recv, need="chan", stall=(), api="Channel.recv", roles=("client", "server"), tmo=True),
     "recv_stderr": dict(fn=c_recv_stderr, need="chan", stall=(), api="Channel.recv_stderr", roles=("client",), tmo=True),
+    "file_read": dict(fn=c_file_read, need="chan", stall=(), api="ChannelFile.read", roles=("client",)),
     "send": dict(fn=c_send, need="chanfull", stall=(), api="Channel.send", roles=("client", "server"), tmo=True),
     "sendall": dict(fn=c_sendall, need="chanfull", stall=(), api="Channel.sendall", roles=("client", "server"), tmo=True),
     "exec_command": dict(fn=c_exec, need="chan", stall=(MSG_CHANNEL_REQUEST,), api="Channel.exec_command", roles=("client",)),
@@ -466,8 +471,11 @@ class World:
 
     def drained(self):
         if self.link is not None:
+            psock = self.link.b if self.role == "client" else self.link.a
             for d, reader in ((self.link.ab, self.link.b), (self.link.ba, self.link.a)):
                 if d.pending() and not (reader.closed or d.rst):
+                    if reader is psock and self.stall.hit.is_set() and not self.stall.go.is_set():
+                        continue  # backlog behind the request the harness itself is holding at the peer
                     return False
             return True
         return self.pipe_unread() == 0
@@ -479,7 +487,7 @@ class World:
             cur = self.activity()
             if cur != last:
                 last, since = cur, time.monotonic()
-            elif time.monotonic() - since >= 0.15 and self.drained():
+            elif time.monotonic() - since >= 0.08 and self.drained():
                 return True
             time.sleep(0.02)
         return False
@@ -661,6 +669,30 @@ def _describe(stack):
     )
 
 
+PRE_ACTIONS = ("shutdown_read", "shutdown2", "shutdown_write", "set_combine_stderr", "settimeout_none")
+
+
+def apply_pre(w):
+    """A local action of the application on the victim's channel that precedes the loss (a local
+    half-close marks EOF *without* the peer having sent one: the reader must still be released)."""
+    pre, ch = w.a.get("pre"), w.vchan
+    if not pre or pre == "none" or ch is None:
+        return
+    if pre == "shutdown_read":
+        ch.shutdown_read()
+    elif pre == "shutdown2":
+        ch.shutdown(2)
+    elif pre == "shutdown_write":
+        ch.shutdown_write()
+    elif pre == "set_combine_stderr":
+        ch.set_combine_stderr(True)
+    elif pre == "settimeout_none":
+        ch.settimeout(30.0)
+        ch.settimeout(None)
+    else:
+        raise ValueError(pre)
+
+
 class Tracer:
     """Counts LINE events of paramiko code in the calling thread; at the k-th
     one it parks the caller until the injector has done its work (a single
@@ -763,10 +795,27 @@ def wait_parked(w, callers, timeout=40.0):
         now = time.monotonic()
         if key != last or not all(k for k in key[0]):
             last, since = key, now
-        elif now - since >= 0.3 and w.drained():
+        elif now - since >= (0.12 if w.spec["stall"] else 0.25) and w.drained():
             return "blocked"
-        time.sleep(0.05)
+        time.sleep(0.03)
     return "unsettled"
+
+
+_TCK = os.sysconf("SC_CLK_TCK") if hasattr(os, "sysconf") else 100
+
+
+def os_thread_state(t):
+    """(scheduler state, CPU seconds) of a Python thread from /proc: a *parked* thread sleeps ('S')
+    and burns no CPU; a thread that is merely starved on a loaded box is runnable ('R')."""
+    tid = getattr(t, "native_id", None)
+    if not tid:
+        return None
+    try:
+        with open("/proc/self/task/%d/stat" % tid) as f:
+            f_ = f.read().rsplit(")", 1)[1].split()
+        return f_[0], (int(f_[11]) + int(f_[12])) / float(_TCK)
+    except (OSError, ValueError, IndexError):
+        return None
 
 
 def observe(w, callers, window, deadline, extra_threads=()):
@@ -774,15 +823,18 @@ def observe(w, callers, window, deadline, extra_threads=()):
     holds for `window` seconds.
 
     A run of samples is quiescent while the *hard* facts do not change: bytes
-    moved on the link (none), link drained, is_active(), which calls are back,
-    which threads are alive.  Within such a run the stack state of every
-    thread (its paramiko frames, no line numbers) must be constant -> the
-    threads are parked -> "blocked"/"still_active"; or cycle through a
-    handful of recurring states -> a loop that produces nothing observable
-    -> "spinning" (a livelocked call never returns either)."""
+    moved on the link (none), is_active(), which calls are back, which threads
+    are alive.  Within such a run every live thread must be *parked*: the same
+    paramiko frames in (nearly) all samples, the OS thread asleep ('S' in
+    /proc/self/task/<tid>/stat, which a CPU-starved but runnable thread is not)
+    and using no CPU -> "blocked"/"still_active".  Threads that do use CPU
+    count only as a livelock, under a stricter rule: at most 6 recurring
+    full-stack states (each seen twice or more) over twice the window ->
+    "spinning".  Everything else keeps sampling until the watchdog ->
+    "unsettled"."""
     t_end = time.monotonic() + deadline
     hard_key, run_start, run_samples = None, None, 0
-    states = {}
+    states, full_states, osinfo = {}, {}, {}
     vt, pt = w.V, w.P
     last = {}
     while True:
@@ -801,47 +853,61 @@ def observe(w, callers, window, deadline, extra_threads=()):
             pstack is None,
             tuple(s is None for s in estacks),
             w.activity(),
-            drained,
         )
-        soft = (
-            tuple(None if s is None else proj(s) for s in cstacks),
-            None if vstack is None else proj(vstack),
-            None if pstack is None else proj(pstack),
-            tuple(None if s is None else proj(s) for s in estacks),
-        )
+        everyone = list(cstacks) + [vstack, pstack] + list(estacks)
+        soft = tuple(None if s is None else proj(s) for s in everyone)
+        full = tuple(None if s is None else tuple(q for _, q, _ in s) for s in everyone)
         last = dict(cstacks=cstacks, vstack=vstack, pstack=pstack, estacks=estacks, active=active, drained=drained)
         if all(c.done for c in callers) and not active and all(s is None for s in estacks):
             return "ok", dict(samples=run_samples, span=0.0), last
         if hard != hard_key:
-            hard_key, run_start, run_samples, states = hard, now, 0, {}
+            hard_key, run_start, run_samples = hard, now, 0
+            states, full_states, osinfo = {}, {}, {}
         run_samples += 1
         if soft in states:
             states[soft][0] += 1
         else:
             states[soft] = [1, last]
+        full_states[full] = full_states.get(full, 0) + 1
+        live = [c for c in callers if not c.done] + [t for t in (vt, pt) if t.is_alive()] + [
+            t for t in extra_threads if t.is_alive()]
+        for t in live:
+            st = os_thread_state(t)
+            if st is None:
+                continue
+            o = osinfo.setdefault(t.name, dict(cpu0=st[1], cpu=st[1], n=0, asleep=0))
+            o["cpu"] = st[1]
+            o["n"] += 1
+            o["asleep"] += 1 if st[0] == "S" else 0
         span = now - run_start
-        # undelivered bytes do not break quiescence: the hard key already demands that not a byte was
-        # sent or delivered during the whole run, so whoever should read them is one of the parked threads
+        # (undelivered bytes do not break quiescence: the hard key already demands that not a byte was sent or
+        # delivered during the whole run, so whoever should read them is one of the parked threads)
         if span >= window and run_samples >= 8:
-            parked = len(states) == 1
-            recurring = (not parked and run_samples >= 16 and len(states) <= 6
-                         and all(n >= 2 for n, _ in states.values()))
+            asleep = all(o["asleep"] >= 0.9 * o["n"] and o["cpu"] - o["cpu0"] <= max(0.1, 0.05 * span)
+                         for o in osinfo.values()) and len(osinfo) == len(live)
+            top = max(n for n, _ in states.values())
+            parked = asleep and top >= 0.9 * run_samples
+            recurring = (not asleep and span >= 2 * window and run_samples >= 16 and len(full_states) <= 6
+                         and all(n >= 2 for n in full_states.values()))
             if parked or recurring:
-                info = dict(samples=run_samples, span=round(span, 2), distinct_stack_states=len(states))
+                info = dict(samples=run_samples, span=round(span, 2), distinct_stack_states=len(full_states),
+                            threads={k: dict(asleep="%d/%d" % (o["asleep"], o["n"]), cpu=round(o["cpu"] - o["cpu0"], 2))
+                                     for k, o in osinfo.items()})
+                last = max(states.values(), key=lambda x: x[0])[1]
                 if recurring:
-                    # report the most frequent state, and every place the callers were seen in
                     info["spin_states"] = sorted(
                         set(str(describe(cs)["innermost"]) for _, l in states.values() for cs in l["cstacks"] if cs))
                     info["v_spin_states"] = sorted(
                         set(str(describe(l["vstack"])["innermost"]) for _, l in states.values() if l["vstack"]))
-                    last = max(states.values(), key=lambda x: x[0])[1]
                 if any(s is not None for s in last["estacks"]):
                     return "inject_blocked", info, last
                 if active:
                     return "still_active", info, last
                 return ("blocked" if parked else "spinning"), info, last
         if now >= t_end:
-            return "unsettled", dict(samples=run_samples, span=round(span, 2), distinct_stack_states=len(states)), last
+            return "unsettled", dict(samples=run_samples, span=round(span, 2), distinct_stack_states=len(full_states),
+                                     threads={k: dict(asleep="%d/%d" % (o["asleep"], o["n"]), cpu=round(o["cpu"] - o["cpu0"], 2))
+                                              for k, o in osinfo.items()}), last
         time.sleep(0.25)
 
 
@@ -963,8 +1029,12 @@ def run_case(a):
             # loop adds a few lines per 0.1 s: those are preemption points too)
             res["n_lines"] = tr.n
         res["parked"] = st
+        if st == "blocked" and a.get("pre") not in (None, "none"):
+            apply_pre(w)
+            w.wait_quiet(10)
+            st = res["parked_after_pre"] = wait_parked(w, callers)
         if st == "premature":
-            # a timeout variant that expired on its own, or a harness problem
+            # a timeout variant that expired on its own, a pre-loss action that ended the call, or a harness problem
             res["callers"] = [c.report() for c in callers]
             w.teardown()
             return dict(res, status="done", verdict="premature")
@@ -981,6 +1051,7 @@ def run_case(a):
             hit_evt.set()
             resume_evt.wait(6.0)
 
+        apply_pre(w)
         tr = Tracer(k, on_hit, a.get("at"))
         callers = [Caller(w, 0, tr)]
         callers[0].start()
@@ -1006,8 +1077,10 @@ def run_case(a):
         resume_evt.set()
         res["n_lines_seen"] = tr.n
     else:  # after
+        apply_pre(w)
+        w.wait_quiet(10)
         injector.start()
-        verdict, info, last = observe(w, [], window, 3 * window + 25, extra_threads=[injector])
+        verdict, info, last = observe(w, [], window, 4 * window + 25, extra_threads=[injector])
         if verdict != "ok":
             res.update(verdict=verdict, window=info, call_made=False, active=last["active"], drained=last["drained"],
                        vthread=describe(last["vstack"]) if last["vstack"] else None,
@@ -1031,7 +1104,7 @@ def run_case(a):
         wait_inactive(1.0)
     w.stall.go.set()
     phases["lost"] = round(time.monotonic() - t_begin, 2)
-    verdict, info, last = observe(w, callers, window + tmo, 3 * window + 25 + tmo, extra_threads=[injector])
+    verdict, info, last = observe(w, callers, window + tmo, 4 * window + 25 + tmo, extra_threads=[injector])
     res.update(
         verdict=verdict,
         window=info,
